@@ -15,7 +15,6 @@ cd "$WT"
 ( timeout 120 /venv/bin/python _seed/$NAME/demo.py > .demo_clean 2>&1; echo $? > .rc_clean ) < /dev/null
 if ! git apply "_seed/$NAME/patch.diff" 2>.apply_err; then echo "PATCH DOES NOT APPLY: $(head -2 .apply_err)"; exit 3; fi
 ( timeout 120 /venv/bin/python _seed/$NAME/demo.py > .demo_patched 2>&1; echo $? > .rc_patched ) < /dev/null
-TESTS=$(/venv/bin/python -m pytest -q -p no:cacheprovider -x -q test 2>&1 | tail -1)
 TESTS=$(/venv/bin/python -m pytest -q -p no:cacheprovider test 2>&1 | tail -1)
 echo "demo clean rc=$(cat .rc_clean)  demo patched rc=$(cat .rc_patched)  tests: $TESTS"
 cd "$V"
